@@ -1,0 +1,79 @@
+//go:build verif
+
+package ssh
+
+import (
+	"io"
+	"math/big"
+)
+
+// Hooks for /verif check C24 (SSH wire codec). Add-only; compiled only with -tags verif.
+
+// VerifC24Messages returns a pointer to a fresh zero value of every message struct
+// declared in messages.go (the fields of these unexported structs are exported, so a
+// caller outside the package can fill and read them through reflection).
+func VerifC24Messages() []interface{} {
+	return []interface{}{
+		new(disconnectMsg),
+		new(kexInitMsg),
+		new(kexDHInitMsg),
+		new(kexECDHInitMsg),
+		new(kexECDHReplyMsg),
+		new(kexDHReplyMsg),
+		new(kexDHGexGroupMsg),
+		new(kexDHGexInitMsg),
+		new(kexDHGexReplyMsg),
+		new(kexDHGexRequestMsg),
+		new(serviceRequestMsg),
+		new(serviceAcceptMsg),
+		new(extInfoMsg),
+		new(userAuthRequestMsg),
+		new(userAuthSuccessMsg),
+		new(userAuthFailureMsg),
+		new(userAuthBannerMsg),
+		new(userAuthInfoRequestMsg),
+		new(channelOpenMsg),
+		new(channelDataMsg),
+		new(channelOpenConfirmMsg),
+		new(channelOpenFailureMsg),
+		new(channelRequestMsg),
+		new(channelRequestSuccessMsg),
+		new(channelRequestFailureMsg),
+		new(channelCloseMsg),
+		new(channelEOFMsg),
+		new(globalRequestMsg),
+		new(globalRequestSuccessMsg),
+		new(globalRequestFailureMsg),
+		new(windowAdjustMsg),
+		new(userAuthPubKeyOkMsg),
+		new(userAuthGSSAPIResponse),
+		new(userAuthGSSAPIToken),
+		new(userAuthGSSAPIMIC),
+		new(userAuthGSSAPIErrTok),
+		new(userAuthGSSAPIError),
+		new(pingMsg),
+		new(pongMsg),
+	}
+}
+
+// VerifC24Decode is the packet decoder used by the mux and the debug printers.
+func VerifC24Decode(packet []byte) (interface{}, error) { return decode(packet) }
+
+// The mpint primitives below are also used outside Marshal (exchange hash, key blobs).
+
+func VerifC24IntLength(n *big.Int) int { return intLength(n) }
+
+// VerifC24MarshalInt writes n into to (which must have room for intLength(n) bytes)
+// and returns the number of bytes written.
+func VerifC24MarshalInt(to []byte, n *big.Int) int {
+	rest := marshalInt(to, n)
+	return len(to) - len(rest)
+}
+
+func VerifC24WriteInt(w io.Writer, n *big.Int) { writeInt(w, n) }
+
+func VerifC24ParseInt(in []byte) (out *big.Int, rest []byte, ok bool) { return parseInt(in) }
+
+func VerifC24ParseString(in []byte) (out, rest []byte, ok bool) { return parseString(in) }
+
+func VerifC24ParseNameList(in []byte) (out []string, rest []byte, ok bool) { return parseNameList(in) }
